@@ -10,7 +10,7 @@ The oracle demands what the property states: after every step the registry holds
 ledger's objects, each once, with its root flag, count equal, mem() right for every address the
 case knows, plus the white-box observations listed with the property (stored home, probe
 distances ordered, bounds, marks clear)."""
-import os, json
+import os, json, re
 import vlib
 
 PR = [5, 11, 23, 53, 101, 197, 389]
@@ -39,6 +39,9 @@ def gen_offsets(rng, n, style):
         elif style == 'endcluster':  # homes at the last slots of a small registry: wrap-around
             m = rng.choice([5, 11, 23])
             o = m * GAP * rng.randrange(0, 6 * n + 6) + (m - 1 - rng.randrange(0, 3))
+        elif style == 'lastslot':    # every home is the LAST slot of a small registry: every probe run wraps
+            m = rng.choice([5, 11, 23])
+            o = m * GAP * rng.randrange(0, 6 * n + 6) + (m - 1)
         elif style == 'twohomes':
             m = rng.choice([5, 11, 23, 53])
             o = m * GAP * rng.randrange(0, 6 * n + 6) + rng.choice([0, m - 1])
@@ -55,7 +58,7 @@ def gen_offsets(rng, n, style):
 
 
 def gen_case(rng, maxops, nmax, base):
-    style = rng.choice(['lcm', 'lcm', 'lcmbig', 'endcluster', 'endcluster', 'twohomes', 'dense', 'small', 'mixed'])
+    style = rng.choice(['lcm', 'lcm', 'lcmbig', 'endcluster', 'endcluster', 'lastslot', 'lastslot', 'twohomes', 'dense', 'small', 'mixed'])
     n = rng.choice([2, 3, 4, 5, 6, 8, 12, 20, 40, nmax])
     n = max(2, min(n, nmax))
     offs = gen_offsets(rng, n, style)
@@ -344,6 +347,7 @@ def oracle(case, impl, spec):
         return 'implementation transcript has %d steps, the case %d (crash/timeout?): %s' % (len(st), len(ops) + 1, st[-1][0][-60:])
     if len(sp) != len(st):
         return 'ledger transcript has %d steps, implementation %d' % (len(sp), len(st))
+    words, prev_want = set(), {}
     for n, f in enumerate(st):
         if len(f) != 11:
             return 'step %d: %s' % (n, f[0][-80:])
@@ -353,6 +357,30 @@ def oracle(case, impl, spec):
             if kv:
                 k, r = kv.split(':'); want[int(k)] = r
         op = ops[n - 1] if n else 'new'
+        if op[0] == 'k':
+            words = {int(w) for w in op[1:].split('.') if w and not w.startswith('u')}
+        # nothing live may be RECLAIMED: an object that is finalised in this step without having been deleted
+        # in it (no `r` before its `f`) was taken by a sweep; that is only legitimate for a managed object that
+        # the collection could not reach - not a root, and (when a mark phase ran: alloc, alloc_root, c) not
+        # among the words the stack scan was given.  (del_raw finalises its own target.)
+        deleted, roots_now = set(), {k for k, r in prev_want.items() if r == '1'}
+        for m_ in re.finditer(r'([rf])(\d+)|s(\d+):([01])|!', ev):
+            if m_.group(1) == 'r':
+                deleted.add(int(m_.group(2)))
+            elif m_.group(3) is not None:
+                if m_.group(4) == '1':
+                    roots_now.add(int(m_.group(3)))
+                deleted.discard(int(m_.group(3)))
+            elif m_.group(1) == 'f':
+                k = int(m_.group(2))
+                if k in deleted or (op[0] == 'x' and op[1:] == str(k)):
+                    continue
+                if k in roots_now or (op == 'A%d' % k):
+                    return 'step %d (%s): root object %d was reclaimed and finalised by a sweep' % (n, op, k)
+                if k in words and op[0] in 'aAc' and (k in prev_want or op[1:] == str(k)):
+                    return ('step %d (%s): object %d is referenced from the scanned stack words, yet the collection reclaimed '
+                            'and finalised it (a live managed object dropped from the registry)' % (n, op, k))
+        prev_want = want
         if 'HOOKLOST' in mem:
             return 'step %d: harness hook on the stack scan no longer reached' % n
         if op[0] == 'm':
@@ -477,6 +505,12 @@ def corpus(b):
         '0:0,1:55,2:110,3:165|k0.1.2.3 a0 a1 a2 a3 d1 m1 m2 a1 d0 d3 m2',
         # wrap-around: homes at the last slot of 5, deletion shifts slot 0 back to slot 4
         '0:4,1:59,2:114,3:9|k0.1.2.3 a0 a1 a2 a3 d0 m1 m2 m3 d3 m1',
+        # two objects with home = LAST slot, the live one inserted first (so the second displaces it to slot 0),
+        # then a collection reclaiming the second: the backward shift pulls the already visited survivor from
+        # slot 0 into the last slot, which is looked at again (seeded C17-r7-2: a single-pass sweep drops it)
+        '0:4,1:59|k0 a0 a1 c m0 m1',
+        '0:4,1:59,2:114|k0.2 a0 a1 a2 k0 c m0 m1 m2',
+        '0:10,1:21,2:32,3:43,4:54,5:65,6:76|k0.1.2.3.4.5.6 A2 A3 A4 A5 A6 a0 a1 k0 c m0 m1',
         # sweep compaction with wrap-around: unmarked entry at slot 4, cluster continues at 0,1
         '0:4,1:59,2:114,3:169|k0.1.2.3 a0 a1 a2 a3 k1.3 c m0 m1 m2 m3',
         # a swept owner deletes an object LATER in the pending list, and one that survives
@@ -512,7 +546,7 @@ def run(ctx):
     ctx.cov['rule'] = (
         'seeded histories of alloc / alloc_root / alloc_raw / del / del_raw / mem / forced collection (scripted stack words) / '
         'sweep-only / stop / start over 2-%d objects (a few growth cases up to %d) whose addresses 8*(B+off) are scripted: off = multiples of 5*11*23*53*101 (and *197, *389) '
-        'so that all homes coincide modulo every registry size, homes at the last slots (wrap-around), two homes, dense, small, mixed; '
+        'so that all homes coincide modulo every registry size, homes at the last slots / all at the last slot (every probe run wraps; with stack words keeping the object inserted first), two homes, dense, small, mixed; '
         'objects own other objects (their destructor issues del: removals during a sweep or during another removal, cycles allowed) and/or '
         'allocate managed/root objects from their destructor (GC_Set while a sweep runs or inside a removal; addresses outside the current [minptr,maxptr] '
         'and colliding with survivors; never an address a destructor deletes), or create temporaries (allocate + delete at once) at the address of '
